@@ -772,6 +772,9 @@ mod os {
                     | (error_buf[1] as u32) << 8
                     | (error_buf[2] as u32) << 16
                     | (error_buf[3] as u32) << 24;
+                // The child failed to exec and is exiting.  Reap it here so
+                // that no zombie is left behind even for a detached Popen.
+                self.os_wait().ok();
                 Err(PopenError::from(io::Error::from_raw_os_error(
                     error_code as i32,
                 )))
